@@ -21,7 +21,9 @@ Fixpoint curs (u : nat -> Q) (null : Q) (pos : nat) (l : list nat) : list Q :=
 Definition col_value (u : nat -> Q) (null : Q) (idxs : list nat) (p : nat) : Q :=
   sumQ (fun qc => if Nat.eqb (fst qc) p then snd qc else 0) (combine idxs (curs u null 0 idxs)).
 
-(* all validation points, then the division by n_test *)
+(* all validation points, then the division by n_test; one triple (utility, null, order) per validation point *)
+Definition kpoint := ((nat -> Q) * Q * list nat)%type.
+Definition kernel_t (n : nat) (ts : list kpoint) : list Q :=
+  map (fun p => sumQ (fun t : kpoint => col_value (fst (fst t)) (snd (fst t)) (snd t) p) ts / qn (length ts)) (seq 0 n).
 Definition kernel (n : nat) (us : list (nat -> Q)) (nulls : list Q) (orders : list (list nat)) : list Q :=
-  map (fun p => sumQ (fun t => col_value (fst (fst t)) (snd (fst t)) (snd t) p) (combine (combine us nulls) orders)
-                / qn (length orders)) (seq 0 n).
+  kernel_t n (combine (combine us nulls) orders).
